@@ -296,6 +296,25 @@ func (adapterComp) Gen(rng *rand.Rand, tier string) [][]string {
 		}
 		hs = append(hs, h)
 	}
+	if tier == "thorough" {
+		// exhaustive: all histories of length 6 over 3 keys x {put small, put large, hoa, get} + rm of one key, memory tier of 2 items / 12 bytes
+		var alphabet []string
+		for _, k := range []string{"21", "22", "23"} {
+			alphabet = append(alphabet, "put "+k+" "+k+"ee 2", "put "+k+" "+k+"ee 11", "hoa "+k+" "+k+"ee 5", "get "+k)
+		}
+		alphabet = append(alphabet, "rm 21")
+		var rec func(prefix []string, depth int)
+		rec = func(prefix []string, depth int) {
+			if depth == 0 {
+				hs = append(hs, append([]string{"begin adapter cap=2 bytes=12 db=mem"}, prefix...))
+				return
+			}
+			for _, a := range alphabet {
+				rec(append(append([]string{}, prefix...), a), depth-1)
+			}
+		}
+		rec(nil, 5)
+	}
 	return hs
 }
 
@@ -591,6 +610,28 @@ func (unitComp) Gen(rng *rand.Rand, tier string) [][]string {
 			}
 		}
 		hs = append(hs, h)
+	}
+	if tier == "thorough" {
+		// exhaustive: all histories of length 6 over 2 keys x {put ok, put rejected, get, get failing, rm, rm rejected} + clearcache,
+		// for each cacher the factory builds at capacity 1 (every overwrite, eviction, refill and fault interleaving up to that length)
+		var alphabet []string
+		for _, k := range []string{"31", "32"} {
+			alphabet = append(alphabet, "put "+k+" aa"+k+" 0", "put "+k+" bb"+k+" 1", "get "+k+" 0", "get "+k+" 1", "rm "+k+" 0", "rm "+k+" 1")
+		}
+		alphabet = append(alphabet, "clearcache")
+		for _, begin := range []string{"begin unit cache=lru cap=1 bytes=1024 shards=1 db=mem batch=1", "begin unit cache=sizelru cap=1 bytes=4 shards=1 db=mem batch=1", "begin unit cache=fifo cap=2 bytes=1 shards=1 db=mem batch=1"} {
+			var rec func(prefix []string, depth int)
+			rec = func(prefix []string, depth int) {
+				if depth == 0 {
+					hs = append(hs, append([]string{begin}, prefix...))
+					return
+				}
+				for _, a := range alphabet {
+					rec(append(append([]string{}, prefix...), a), depth-1)
+				}
+			}
+			rec(nil, 5)
+		}
 	}
 	return hs
 }
